@@ -307,11 +307,18 @@ func Explore(sc *Scenario, opt Options) *Stats {
 			st.Sample = &Violation{Scenario: sc.Name, Params: sc.Params, Choices: choices(x), Obs: x.obs}
 		}
 		if len(x.fails) > 0 {
-			key := sigKey(x.fails)
+			xf, rf := x, r
+			if r.Abandoned {
+				// the execution was cut at a covered state after its oracle had already failed: complete
+				// it (default choices beyond the cut) so that the report, its signature and its replay
+				// describe a whole execution
+				xf, rf = runOnce(sc, choices(x), false, nil)
+			}
+			key := sigKey(xf.fails)
 			st.SigCounts[key]++
 			if !sigSeen[key] {
 				sigSeen[key] = true
-				v := confirm(sc, x, r)
+				v := confirm(sc, xf, rf)
 				st.Violations = append(st.Violations, v)
 			}
 		}
